@@ -90,6 +90,9 @@ pub struct ScenarioReport {
     /// most scheduling steps taken by an execution that terminated
     #[serde(default)]
     pub max_steps_done: usize,
+    /// written by the watchdog of a worker that then exits: an execution never came back
+    #[serde(default)]
+    pub hang: bool,
     pub obs: Vec<u64>,
     pub obs_truncated: bool,
     pub capped: bool,
@@ -343,6 +346,7 @@ impl Acc {
 pub fn explore(s: &Scenario, shard: usize, shards: usize, deadline: Option<Instant>) -> ScenarioReport {
     let t0 = Instant::now();
     crate::rt::set_deadline(deadline);
+    crate::rt::watchdog::scenario(&s.name, &s.descr, !s.loop_body);
     let acc = std::rc::Rc::new(std::cell::RefCell::new(Acc {
         s: s.clone(),
         rep: ScenarioReport {
